@@ -1,15 +1,21 @@
 (* Props/C20.v — C20: a failed disk operation is reported and leaves the store consistent.
-   A fault-aware engine model (what the RUNNING process does after an error: the stale writer, the
-   index not updated after a failed fsync or rollover) is not built; that part of the property is
-   decided by exhaustive one-fault sweeps on the real store (`bin/check C20`, level fault_enumeration).
-   Proved here: the discipline of file ids that the repair of the writer relies on (fault-free
-   model), and the restart half of the property for set / delete / reopen: a failed call has no
-   effect and the error paths of these operations issue no further call, so what a failed operation
-   leaves on disk is a crash image of its trace (a call boundary; or, when the failing call is the
-   second write of a record larger than the buffer, a record cut inside) — and every such image
-   recovers all earlier operations and the failed one entirely or not at all (C03). *)
+   Proved here:
+   - the discipline of file ids that the repair of the writer relies on (fault-free model);
+   - the restart half for set / delete / reopen: a failed call has no effect and the error paths of these
+     operations issue no further call, so what a failed operation leaves on disk is a crash image of its
+     trace (a call boundary; or a record cut inside when the failing call is the second write of a record
+     larger than the buffer) — and every such image recovers all earlier operations and the failed one
+     entirely or not at all (C03);
+   - the statistics rows across a failing unlink (repaired order; the pinned order is refuted);
+   - the RUNNING process after a put or delete whose append failed (or whose replacement of the active file
+     failed): theorems 6 and 7 — every later answer is the map's answer with the failed operation not
+     applied; the record that may still sit whole in the write buffer is dropped by the next put, delete or
+     merge and written out by a clean close, in which case the operation has taken effect after the restart.
+   Not modelled (decided by the one-fault sweeps of `bin/check C20`, level fault_enumeration): the running
+   process after a failed fsync or a failed rollover behind a completed append (a complete record that is on
+   disk but not in the index), and after a merge pass that failed half-way. *)
 From BC Require Import Store.Engine Store.Log Store.Cons Store.Inv Store.Refine Store.Merge Store.Theorems
-  Store.Codec Store.CodecProofs Store.Crash Store.CrashScript Store.CrashMerge Store.FaultUnlink.
+  Store.Codec Store.CodecProofs Store.Crash Store.CrashScript Store.CrashMerge Store.FaultUnlink Store.FaultContinue.
 From Coq Require Import Lia.
 Open Scope N_scope.
 
@@ -92,6 +98,59 @@ Theorem C20_row_first_refuted :
   has_file (log_of_dir d') 0 = true /\ sget x' 0 = None /\ sget x' 1 <> None.
 Proof. exact row_first_loses_a_file. Qed.
 Print Assumptions C20_row_first_refuted.
+
+(* 6. The running process after a failed write.  A put or delete issued in invariant state s fails in its append,
+      and [n] creates of the next active file fail on top of that (the engine state is then
+      [after_failed_creates s clk n]: index and statistics untouched, `stale` set, `last_fileid` advanced by n).
+      Whatever script follows — gets, puts, deletes, reopens, clock changes, and merge passes as long as no
+      create had failed — every answer is the map's answer over the map of s: the failed operation has not taken
+      effect and nothing else was disturbed; and the state is again an invariant state or a faulted one. *)
+Theorem C20_continue_after_failed_write : forall c s clk n ops, Inv s ->
+  grun_ready c (after_failed_creates s clk n) ops ->
+  let '(x', rs, _) := run c (after_failed_creates s clk n) ops in
+  good x' /\ rs = spec_run (abs s) ops /\ forall k, gabs x' k = spec_final (abs s) ops k.
+Proof. exact continue_after_failed_write. Qed.
+Print Assumptions C20_continue_after_failed_write.
+
+(* 7. ... with the write buffer: [r = Some e] when the whole record of the failed operation is still buffered
+      (the failing call was the final flush).  The answers are those of the map of s with that operation
+      PENDING ([specr_run]): invisible while the process runs, dropped by the next put, delete or merge (the
+      active file is replaced and the buffer discarded), applied by a clean close that comes first (the buffer is
+      written out) — then, after the restart, the failed operation has taken effect, as the property allows. *)
+Theorem C20_continue_after_failed_append : forall c s clk r ops, Inv s ->
+  grun_ready_r c (after_failed_append s clk) r ops ->
+  let '(x', r', outs, _) := run_r c (after_failed_append s clk) r ops in
+  let '(souts, m', p') := specr_run (abs s) (pending r) ops in
+  rgood x' r' /\ outs = souts /\ pending r' = p' /\ forall k, gabs x' k = m' k.
+Proof. exact continue_after_failed_append. Qed.
+Print Assumptions C20_continue_after_failed_append.
+
+(* the first put or delete after the failure replaces the active file and re-establishes the invariant *)
+Theorem C20_next_write_heals : forall c x k v, faulted x ->
+  exists h t1, new_active x = ROk (h, t1) /\ Inv h /\ (forall k', abs h k' = fabs x k') /\
+    step c x (OSet k v) = let '(s2, r, t2) := step c h (OSet k v) in (s2, r, t1 ++ t2).
+Proof. exact step_set_faulted. Qed.
+Print Assumptions C20_next_write_heals.
+
+(* Non-vacuity of 6 and 7: after SET k 1, a SET k 2 fails in its flush.  Reads see 1; a restart that comes first
+   applies the buffered record (k reads 2 afterwards); a SET of another key first discards it (k reads 1 after
+   the restart). *)
+Example C20_pending_example :
+  let c := mkCfg 1000 false 0 1 0 1000000000 in
+  let s := fst (fst (run c init [OSet [107] [1]])) in
+  let e := mkEntry (s_clock s) [107] (Some [2]) in
+  Inv s /\
+  snd (fst (run_r c (after_failed_append s (s_clock s + 1)) (Some e) [OGet [107]; OReopen; OGet [107]])) = [VVal (Some [1]); VUnit; VVal (Some [2])] /\
+  snd (fst (run_r c (after_failed_append s (s_clock s + 1)) (Some e) [OGet [107]; OSet [108] [3]; OReopen; OGet [107]]))
+    = [VVal (Some [1]); VUnit; VUnit; VVal (Some [1])] /\
+  grun_ready_r c (after_failed_append s (s_clock s + 1)) (Some e) [OGet [107]; OReopen; OGet [107]].
+Proof.
+  cbv zeta. split.
+  { pose proof (C01_like := run_refines (mkCfg 1000 false 0 1 0 1000000000) [OSet [107] [1]] init (proj1 init_inv)).
+    cbn [run_ready op_ready] in C01_like. specialize (C01_like (conj I I)).
+    destruct (run (mkCfg 1000 false 0 1 0 1000000000) init [OSet [107] [1]]) as [[s' rs] ts]. exact (proj1 C01_like). }
+  split; [vm_compute; reflexivity|]. split; [vm_compute; reflexivity|]. vm_compute. auto.
+Qed.
 
 (* Non-vacuity of 4: the hypotheses hold for a concrete script, and a failing second SET (cut after 9
    bytes of its record) leaves such an image. *)
